@@ -12,5 +12,9 @@ for id in "$@"; do
   echo "=== $id on $(basename $(dirname $P))/$(basename $P)"
   /verif/bin/check "$id" "${TIER:-quick}" > /var/tmp/mut_out_$id.txt 2>&1
   echo "exit=$?"
+  rc=$?
   grep -E "^(VIOLATION|KNOWN|C[0-9]+ )" /var/tmp/mut_out_$id.txt | cut -c1-260 | head -8
+  # record next to the patch: what the check reported on the changed tree
+  rec="$(dirname $P)/tried_$(basename $P .diff)_$id.txt"
+  { echo "check=$id tier=${TIER:-quick} seed=${VERIF_SEED:-1}"; grep -E "^C[0-9]+ (HELD|VIOLATED|INCONCLUSIVE)" /var/tmp/mut_out_$id.txt | tail -1; grep -A1 -E "^VIOLATION" /var/tmp/mut_out_$id.txt | grep -v "^--" | cut -c1-400 | head -12; } > "$rec"
 done
